@@ -12,8 +12,8 @@ func init() {
 	register(&PropCheck{
 		ID: "C17",
 		Explanation: "Static check-then-act rules on configured limits. Every comparison whose operand originates from a limit field (SessionConfig.MaxConnections, ClientRegistry.maxConnections, TunnelRegistry.maxTunnels, MappingConfig.MaxConnections / quota MaxConnections, Service.maxActiveCodesPerClient, Service.maxActiveMappingsPerClient) is discovered program-wide and classified by the counted quantity: " +
-			"R-C17-1 (a) len(map): the deciding comparison and the insertion into that map lie in one write-locked critical section (a fast-path refusal under a weaker lock is allowed only if a deciding comparison follows); (b) an atomic counter: the comparison is applied to the result of the atomic add that reserves the slot (never to a separately loaded value); (c) a count obtained from storage followed by a create: no static guarantee - reported (known findings). A limit comparison whose counted quantity cannot be classified fails as undecided. " +
-			"R-C17-2: a refusal performs no recording action, and releases what was created before the refusal. " +
+			"R-C17-1 (a) len(map): the deciding comparison and the insertion into that map lie in one write-locked critical section with no release of the lock on any path between them (a fast-path refusal under a weaker lock is allowed only if a deciding comparison follows); (b) an atomic counter: the comparison is applied to the result of the atomic add that reserves the slot (never to a separately loaded value); (c) a count obtained from storage followed by a create: no static guarantee - reported (known findings). A limit comparison whose counted quantity cannot be classified fails as undecided. " +
+			"R-C17-2: a refusal performs no recording action, and releases what was created before the refusal; a slot reserved on an atomic counter is given back exactly once (deferred release, no second decrement). " +
 			"R-C17-3: at the control-connection cap exactly the oldest connection is evicted, under the same lock, before the insert. " +
 			"Decides these necessary conditions; does not decide 'at any instant' over real schedules for storage-backed quotas.",
 		Run: runC17,
@@ -25,6 +25,10 @@ func init() {
 			{Name: "tunnel-registry-check-outside-lock", File: "internal/protocol/session/tunnel_registry.go", Rule: "R-C17-1",
 				Old: "\tr.mu.Lock()\n\tdefer r.mu.Unlock()\n\n\t// 检查容量限制\n\tif r.maxTunnels > 0 && len(r.connMap) >= r.maxTunnels {\n\t\tr.logger.Warnf(\"TunnelRegistry: capacity limit reached (max=%d, current=%d)\", r.maxTunnels, len(r.connMap))\n\t\treturn coreerrors.Newf(coreerrors.CodeResourceExhausted, \"tunnel registry capacity limit reached: max %d tunnels\", r.maxTunnels)\n\t}\n",
 				New: "\tr.mu.RLock()\n\tfull := r.maxTunnels > 0 && len(r.connMap) >= r.maxTunnels\n\tr.mu.RUnlock()\n\tif full {\n\t\treturn coreerrors.Newf(coreerrors.CodeResourceExhausted, \"tunnel registry capacity limit reached: max %d tunnels\", r.maxTunnels)\n\t}\n\n\tr.mu.Lock()\n\tdefer r.mu.Unlock()\n"},
+			{Name: "cap-lock-released-around-evict", File: "internal/protocol/session/client_registry.go", Rule: "R-C17-1",
+				Old: "\t\t\tr.removeConnectionLocked(oldestConn)\n\t\t} else {", New: "\t\t\tif oldestConn.Stream != nil {\n\t\t\t\tr.mu.Unlock()\n\t\t\t\toldestConn.Stream.Close()\n\t\t\t\tr.mu.Lock()\n\t\t\t}\n\t\t\tr.removeConnectionLocked(oldestConn)\n\t\t} else {"},
+			{Name: "refusal-decrements-twice", File: "internal/client/mapping/base.go", Rule: "R-C17-2",
+				Old: "quota check failed: %v\", h.config.MappingID, err)\n", New: "quota check failed: %v\", h.config.MappingID, err)\n\t\th.activeConnCount.Add(-1)\n"},
 			{Name: "refusal-leaks-stream", File: "internal/protocol/session/connection_lifecycle.go", Rule: "R-C17-2",
 				Old: "\t\t_ = s.streamMgr.RemoveStream(connID)\n", New: ""},
 			{Name: "cap-evicts-without-removal", File: "internal/protocol/session/client_registry.go", Rule: "R-C17-3",
@@ -271,6 +275,30 @@ func runC17(r *Report) {
 			ok = len(hits) == 0
 		}
 		r.Ob("R-C17-2", hc.Pos(), ok, "the slot reserved by Add(1) is released by a deferred Add(-1) registered before any return (a refused or finished connection gives its slot back)", "handleConnection", "slot-released")
+		// exactly once: with the deferred release registered no other decrement of the counter exists
+		// (neither here nor in the deferred closures / helpers called with the handler as receiver)
+		extra := 0
+		var extraPos token.Pos
+		scan := []*ssa.Function{hc}
+		scan = append(scan, hc.AnonFuncs...)
+		for _, g := range scan {
+			for _, a := range Calls(g, false, "atomic:Int32.Add", "atomic:Int64.Add") {
+				if a == dec {
+					continue
+				}
+				if _, fld, _, isF := FieldOf(Recv(a)); !isF || fld != "activeConnCount" {
+					continue
+				}
+				if k, isK := ConstInt(Arg(a, 0)); !isK || k < 0 {
+					extra++
+					extraPos = CallPos(a)
+				}
+			}
+		}
+		if extraPos == token.NoPos {
+			extraPos = hc.Pos()
+		}
+		r.Ob("R-C17-2", extraPos, extra == 0, "the reserved slot is given back exactly once: no decrement of the active-connection counter besides the deferred release (a refusal that also decrements makes the counter drift below the number of live connections and admits beyond the limit)", "handleConnection", "slot-released-once")
 		// the quota decision follows the reservation
 		for _, q := range Calls(hc, false, "BaseMappingHandler.checkConnectionQuota") {
 			r.Ob("R-C17-2", CallPos(q), inc != nil && Before(inc.(ssa.Instruction), q.(ssa.Instruction)), "the quota decision is taken after the slot was reserved", "handleConnection", "reserve-then-decide")
@@ -378,6 +406,10 @@ func checkLenLimit(r *Report, f *ssa.Function, cmp *ssa.BinOp, mapField, limit s
 		kc := nearestLock(cmp)
 		same := ki != nil && kc == ki && held(i) && held(cmp)
 		if same {
+			if u := unlockBetween(cmp, i); u != nil {
+				r.Fail("R-C17-1", u.Pos(), "limit "+limit+": the registry lock is released between the comparison with len("+mapField+") and the insertion (the cap must be re-decided after re-acquiring: concurrent admissions both pass the stale comparison)", key...)
+				continue
+			}
 			r.Pass("R-C17-1", cmp.Pos(), "limit "+limit+": comparison with len("+mapField+") and the insertion lie in one write-locked section", key...)
 			continue
 		}
